@@ -227,3 +227,138 @@ def v_private_functions_renamed(d: Path):
 
 
 VARIANTS["private helper functions renamed"] = v_private_functions_renamed
+
+
+# ---------------------------------------------------------------- methods of every class sorted by name (dunder methods first, in their order)
+class _SortMethods(ast.NodeTransformer):
+    def visit_ClassDef(self, node):
+        self.generic_visit(node)
+        funcs = [n for n in node.body if isinstance(n, (ast.FunctionDef, ast.AsyncFunctionDef))]
+        # properties with setters (two defs of one name) and overloads keep their relative order: stable sort by name
+        if not funcs:
+            return node
+        first = next(i for i, n in enumerate(node.body) if isinstance(n, (ast.FunctionDef, ast.AsyncFunctionDef)))
+        head = node.body[:first]
+        rest_other = [n for n in node.body[first:] if not isinstance(n, (ast.FunctionDef, ast.AsyncFunctionDef))]
+        if rest_other:
+            return node     # class-level statements between methods may depend on the methods above them: leave the class alone
+        dunder = [f for f in funcs if f.name.startswith("__")]
+        plain = sorted((f for f in funcs if not f.name.startswith("__")), key=lambda f: f.name)
+        node.body = head + dunder + plain
+        return node
+
+
+def v_methods_sorted(d: Path):
+    _rewrite(d, _SortMethods)
+
+
+# ---------------------------------------------------------------- module import aliases renamed (import a.b.c as x -> as c_mod)
+def v_import_aliases_renamed(d: Path):
+    root = d
+    for p in _py_files(d):
+        tree = ast.parse(p.read_text())
+        ren = {}
+        bound = {n.id for n in ast.walk(tree) if isinstance(n, ast.Name) and isinstance(n.ctx, ast.Store)} | \
+                {a.arg for n in ast.walk(tree) if isinstance(n, ast.arguments) for a in n.args + n.kwonlyargs + n.posonlyargs}
+        for n in tree.body:
+            if isinstance(n, ast.Import):
+                for a in n.names:
+                    if a.asname and a.name.startswith("func_adl_xAOD.") and a.asname not in bound:
+                        ren[a.asname] = a.name.rsplit(".", 1)[-1] + "_mod"
+            elif isinstance(n, ast.ImportFrom) and n.module and n.module.startswith("func_adl_xAOD") and n.level == 0:
+                for a in n.names:
+                    modpath = root / (n.module.replace(".", "/")) / (a.name + ".py")
+                    if modpath.exists() and (a.asname or a.name) not in bound:
+                        ren[a.asname or a.name] = a.name + "_mod"
+        if not ren:
+            continue
+        for n in ast.walk(tree):
+            if isinstance(n, ast.Import):
+                for a in n.names:
+                    if a.asname in ren:
+                        a.asname = ren[a.asname]
+            elif isinstance(n, ast.ImportFrom):
+                for a in n.names:
+                    if (a.asname or a.name) in ren and n.module and n.module.startswith("func_adl_xAOD"):
+                        a.asname = ren[a.asname or a.name]
+            elif isinstance(n, ast.Name) and n.id in ren:
+                n.id = ren[n.id]
+        ast.fix_missing_locations(tree)
+        p.write_text(ast.unparse(tree) + "\n")
+
+
+# ---------------------------------------------------------------- keyword arguments that continue the positional prefix are passed positionally
+def v_keywords_positional(d: Path):
+    files = _py_files(d)
+    trees = {p: ast.parse(p.read_text()) for p in files}
+    sigs = {}
+    for t in trees.values():
+        for n in ast.walk(t):
+            if isinstance(n, ast.ClassDef):
+                init = [m for m in n.body if isinstance(m, ast.FunctionDef) and m.name == "__init__"]
+                if init and not init[0].args.vararg and not init[0].args.posonlyargs:
+                    sigs.setdefault(n.name, []).append([a.arg for a in init[0].args.args][1:])
+            if isinstance(n, ast.FunctionDef) and not n.args.vararg and not n.args.posonlyargs and not n.name.startswith("__"):
+                params = [a.arg for a in n.args.args]
+                sigs.setdefault(n.name, []).append(params[1:] if params[:1] in (["self"], ["cls"]) else params)
+    uniq = {k: v[0] for k, v in sigs.items() if len(v) == 1}
+    for p, t in trees.items():
+        for n in ast.walk(t):
+            if isinstance(n, ast.Call) and not any(isinstance(a, ast.Starred) for a in n.args) and all(k.arg for k in n.keywords):
+                name = n.func.attr if isinstance(n.func, ast.Attribute) else n.func.id if isinstance(n.func, ast.Name) else None
+                params = uniq.get(name)
+                if params is None:
+                    continue
+                while n.keywords and len(n.args) < len(params) and n.keywords[0].arg == params[len(n.args)]:
+                    n.args.append(n.keywords.pop(0).value)
+        ast.fix_missing_locations(t)
+        p.write_text(ast.unparse(t) + "\n")
+
+
+# ---------------------------------------------------------------- a docstring for every function that has none
+class _Doc(ast.NodeTransformer):
+    def visit_FunctionDef(self, node):
+        self.generic_visit(node)
+        if not _docstring_offset(node.body):
+            node.body.insert(0, ast.Expr(value=ast.Constant(value=f"{node.name.replace('_', ' ').strip()}.")))
+        return node
+    visit_AsyncFunctionDef = visit_FunctionDef
+
+
+def v_docstrings_added(d: Path):
+    _rewrite(d, _Doc)
+
+
+VARIANTS.update({
+    "methods of every class sorted by name": v_methods_sorted,
+    "module import aliases renamed": v_import_aliases_renamed,
+    "keyword arguments passed positionally": v_keywords_positional,
+    "docstring added to every function": v_docstrings_added,
+})
+
+
+# ---------------------------------------------------------------- every argument after the first passed by keyword (calls to the package's own callables)
+def v_arguments_by_keyword(d: Path):
+    import sys
+    sys.path.insert(0, str(Path(__file__).resolve().parents[1]))
+    from sa.core.callform import signatures
+    files = _py_files(d)
+    trees = {p: ast.parse(p.read_text()) for p in files}
+    sigs = signatures({str(p): t for p, t in trees.items()})
+    for p, t in trees.items():
+        for n in ast.walk(t):
+            if isinstance(n, ast.Call) and not any(isinstance(a, ast.Starred) for a in n.args) and all(k.arg for k in n.keywords):
+                name = n.func.attr if isinstance(n.func, ast.Attribute) else n.func.id if isinstance(n.func, ast.Name) else None
+                if name not in sigs:
+                    continue
+                params, _ = sigs[name]
+                if len(n.args) > len(params) or len(n.args) < 2:
+                    continue
+                extra = [ast.keyword(arg=params[i], value=a) for i, a in enumerate(n.args) if i >= 1]
+                n.args = n.args[:1]
+                n.keywords = extra + n.keywords
+        ast.fix_missing_locations(t)
+        p.write_text(ast.unparse(t) + "\n")
+
+
+VARIANTS["arguments after the first passed by keyword"] = v_arguments_by_keyword
